@@ -112,6 +112,7 @@ func biasFor(prop string) map[string]int {
 		b["CreateDeployment"] = 2
 	case "C19":
 		b["BoundaryDeployment"] = 40
+		b["fault.paramchange"] = 6
 		b["CreateDeployment"] = 8
 		b["fault.lowgas"] = 8
 	}
@@ -233,7 +234,19 @@ func (e Engine) Execute(r *core.Run) *core.Violation {
 				return v
 			}
 		}
-		w.BeginBlock(6 * time.Second)
+		if bias["fault.paramchange"] > 0 && r.Bool(bias["fault.paramchange"], "fault.paramchange") {
+			// governance changes the minimum deposit between two deployments
+			choices := []int64{5000000, 50, 500, 20, 5000, 10000000}
+			min := choices[r.Choose(len(choices), "fault.paramchange.v")]
+			if min == w.Knobs.DeploymentMinDeposit {
+				min++
+			}
+			r.Count("fault:governance-parameter-change")
+			r.Logf("h=%d governance: deployment minimum deposit %d -> %d", w.Height+1, w.Knobs.DeploymentMinDeposit, min)
+			w.BeginBlockWithMinDeposit(6*time.Second, min)
+		} else {
+			w.BeginBlock(6 * time.Second)
+		}
 		t.snap = w.TakeSnap(w.Primary())
 		w.blockStart = t.snap
 		g.s = t.snap
